@@ -4,30 +4,40 @@
    an arbitrary schedule (Base/Threads.v).  Each io.Copy allocates ITS OWN buffer; the variant `shared = true` is the
    "one copyBuf for both directions through io.CopyBuffer" design, kept to state what goes wrong with it.
    Definitions only; proofs are in Proofs/Forward.v. *)
-From TX Require Export Base.Bytes Base.Threads.
+From TX Require Export Base.Bytes Base.Chunks Base.Threads.
 
 Inductive phase :=
-| PRead                 (* about to call src.Read(buf) *)
-| PWrite (n : nat)      (* Read returned n bytes into the buffer; about to call dst.Write(buf[:n]) *)
-| PDone.                (* Read returned io.EOF: the copy loop has ended *)
+| PRead                             (* about to call src.Read(buf) *)
+| PWrite (n : nat) (last : bool)    (* Read returned n bytes (last: together with io.EOF); about to call dst.Write(buf[:n]) *)
+| PDone.                            (* Read returned io.EOF: the copy loop has ended *)
 
 (* one direction: the copy buffer, what its source will still return (one list element per Read call: the chunk
-   oracle of that connection) and what its destination has received so far *)
-Record dirst := { d_buf : list byte; d_src : list (list byte); d_snk : list byte }.
+   oracle of that connection), whether the source hands out its LAST chunk together with io.EOF (legal io.Reader
+   behaviour) or reports a bare (0, io.EOF) afterwards, what its destination has received so far, and the two
+   byte counters a CountingReadWriter keeps when it wraps the source (counts n of every Read) or the destination
+   (counts n of every Write) *)
+Record dirst := { d_buf : list byte; d_src : list (list byte); d_eofl : bool; d_snk : list byte; d_rcnt : nat; d_wcnt : nat }.
 Record fsh := { sh_up : dirst; sh_down : dirst }.
 Definition flo := (bool * phase)%type.      (* false = upload loop, true = download loop *)
 
 Definition getd (d : bool) (s : fsh) : dirst := if d then sh_down s else sh_up s.
 Definition setd (d : bool) (x : dirst) (s : fsh) : fsh :=
   if d then {| sh_up := sh_up s; sh_down := x |} else {| sh_up := x; sh_down := sh_down s |}.
-Definition with_buf (x : dirst) (b : list byte) : dirst := {| d_buf := b; d_src := d_src x; d_snk := d_snk x |}.
-Definition with_src (x : dirst) (t : list (list byte)) : dirst := {| d_buf := d_buf x; d_src := t; d_snk := d_snk x |}.
-Definition with_snk (x : dirst) (k : list byte) : dirst := {| d_buf := d_buf x; d_src := d_src x; d_snk := k |}.
+Definition with_buf (x : dirst) (b : list byte) : dirst :=
+  {| d_buf := b; d_src := d_src x; d_eofl := d_eofl x; d_snk := d_snk x; d_rcnt := d_rcnt x; d_wcnt := d_wcnt x |}.
+(* a Read consumed chunk c: the rest of the source and the read counter *)
+Definition with_src (x : dirst) (t : list (list byte)) (n : nat) : dirst :=
+  {| d_buf := d_buf x; d_src := t; d_eofl := d_eofl x; d_snk := d_snk x; d_rcnt := d_rcnt x + n; d_wcnt := d_wcnt x |}.
+(* a Write delivered k: the sink and the write counter *)
+Definition with_snk (x : dirst) (k : list byte) : dirst :=
+  {| d_buf := d_buf x; d_src := d_src x; d_eofl := d_eofl x; d_snk := d_snk x ++ k; d_rcnt := d_rcnt x; d_wcnt := d_wcnt x + length k |}.
 
 (* whose buffer direction d copies through *)
 Definition bufdir (shared d : bool) : bool := if shared then false else d.
 (* copy(p, chunk): the chunk overwrites the front of the buffer *)
 Definition fill (c buf : list byte) : list byte := c ++ skipn (length c) buf.
+(* does this Read return its chunk together with io.EOF *)
+Definition is_last (x : dirst) (t : list (list byte)) : bool := d_eofl x && match t with [] => true | _ => false end.
 
 Definition fstep (shared : bool) (l : flo) (s : fsh) : flo * fsh :=
   let d := fst l in
@@ -37,22 +47,28 @@ Definition fstep (shared : bool) (l : flo) (s : fsh) : flo * fsh :=
     match d_src (getd d s) with
     | [] => ((d, PDone), s)
     | c :: t =>
-      let s1 := setd d (with_src (getd d s) t) s in
+      let s1 := setd d (with_src (getd d s) t (length c)) s in
       let bd := bufdir shared d in
-      ((d, PWrite (length c)), setd bd (with_buf (getd bd s1) (fill c (d_buf (getd bd s1)))) s1)
+      ((d, PWrite (length c) (is_last (getd d s) t)), setd bd (with_buf (getd bd s1) (fill c (d_buf (getd bd s1)))) s1)
     end
-  | PWrite n =>
+  | PWrite n last =>
     let bd := bufdir shared d in
-    ((d, PRead), setd d (with_snk (getd d s) (d_snk (getd d s) ++ firstn n (d_buf (getd bd s)))) s)
+    ((d, if last then PDone else PRead), setd d (with_snk (getd d s) (firstn n (d_buf (getd bd s)))) s)
   end.
 
-Definition finit (bu bd : list byte) (up down : list (list byte)) : fsh * list flo :=
-  ({| sh_up := {| d_buf := bu; d_src := up; d_snk := [] |}; sh_down := {| d_buf := bd; d_src := down; d_snk := [] |} |},
-   [(false, PRead); (true, PRead)]).
+Definition dinit (b : list byte) (src : list (list byte)) (e : bool) : dirst :=
+  {| d_buf := b; d_src := src; d_eofl := e; d_snk := []; d_rcnt := 0; d_wcnt := 0 |}.
+(* eu / ed: the upload / download source returns its last chunk together with io.EOF *)
+Definition finit_e (eu ed : bool) (bu bd : list byte) (up down : list (list byte)) : fsh * list flo :=
+  ({| sh_up := dinit bu up eu; sh_down := dinit bd down ed |}, [(false, PRead); (true, PRead)]).
+Definition finit := finit_e false false.
 
 Definition frun (shared : bool) (s : fsh * list flo) (sched : list nat) : fsh * list flo := run fsh flo (fstep shared) s sched.
 Definition sink_up (s : fsh * list flo) : list byte := d_snk (sh_up (fst s)).
 Definition sink_down (s : fsh * list flo) : list byte := d_snk (sh_down (fst s)).
+(* BytesSentCounter: bytes the wrapped LocalConn returned from Read; BytesReceivedCounter: bytes written to it *)
+Definition sent_counter (s : fsh * list flo) : nat := d_rcnt (sh_up (fst s)).
+Definition recv_counter (s : fsh * list flo) : nat := d_wcnt (sh_down (fst s)).
 Definition phase_of (i : nat) (s : fsh * list flo) : phase := match nth_error (snd s) i with Some l => snd l | None => PDone end.
 
 (* one copy loop on its own *)
@@ -61,7 +77,17 @@ Definition solo (x : phase * dirst) : phase * dirst :=
   | PDone => x
   | PRead => match d_src (snd x) with
              | [] => (PDone, snd x)
-             | c :: t => (PWrite (length c), with_buf (with_src (snd x) t) (fill c (d_buf (snd x))))
+             | c :: t => (PWrite (length c) (is_last (snd x) t), with_buf (with_src (snd x) t (length c)) (fill c (d_buf (snd x))))
              end
-  | PWrite n => (PRead, with_snk (snd x) (d_snk (snd x) ++ firstn n (d_buf (snd x))))
+  | PWrite n last => (if last then PDone else PRead, with_snk (snd x) (firstn n (d_buf (snd x))))
+  end.
+
+(* what a reader over the chunk oracle of Base/Chunks.v hands to a loop that reads with a cap-byte buffer until the end *)
+Fixpoint oracle_chunks (fuel : nat) (cap : N) (r : rd) : list (list byte) :=
+  match fuel with
+  | O => []
+  | S f => match read1 cap r with
+           | None => []
+           | Some (got, r') => got :: oracle_chunks f cap r'
+           end
   end.
